@@ -41,6 +41,25 @@ Theorem C01_no_failure : forall (T : Type) (cmp : T -> T -> Z), total_preorder c
 Proof. exact run_no_failure. Qed.
 Print Assumptions C01_no_failure.
 
+(* Iteration is strictly ascending: every sequence any Inorder / InorderAfter call of any history
+   delivers (whole or stopped early) is strictly ascending in the comparison. *)
+Theorem C01_iteration_ascending : forall (T : Type) (cmp : T -> T -> Z), total_preorder cmp ->
+  forall (limit : Z -> Z -> Z) (ops : list (op T)) (l : list T),
+  In (RList l) (run cmp limit ops) -> sorted cmp l.
+Proof. exact run_iteration_ascending. Qed.
+Print Assumptions C01_iteration_ascending.
+
+(* What must not change: an operation changes at most the tree it names (Add/Replace/Remove/Clear
+   on tree i leave every other tree, in particular clones and originals, exactly as they were);
+   New, Clone and all observations change no existing tree.  (In the Go code this is a statement
+   about sharing of nodes; in the functional model it holds by construction, so for Clone the
+   tie to the code is the correspondence run that mutates both copies.) *)
+Theorem C01_frame : forall (T : Type) (cmp : T -> T -> Z) (limit : Z -> Z -> Z) (s : state T) (o : op T) (j : nat),
+  (j < length s)%nat -> target T o <> Some j ->
+  nth_error (fst (step cmp limit s o)) j = nth_error s j.
+Proof. exact step_frame. Qed.
+Print Assumptions C01_frame.
+
 (* What New may keep: an accepted choice is strictly ascending, consists of keys that were given,
    and holds an equivalent of every given key. *)
 Theorem C01_new_choice : forall (T : Type) (cmp : T -> T -> Z), total_preorder cmp ->
@@ -104,6 +123,15 @@ Proof. split; [exact cmp_key_preorder|vm_compute; reflexivity]. Qed.
 Example C01_no_failure_ex : Forall (ok_new (Z * Z) cmp_key) ex_ops.
 Proof. repeat constructor; try (right; vm_compute; discriminate); vm_compute; discriminate. Qed.
 
+Example C01_iteration_ascending_ex : In (RList [(1,10); (3,4)]) (run cmp_key lim_log ex_ops).
+Proof. vm_compute. tauto. Qed.
+
+Example C01_frame_ex :
+  let s := exec_from cmp_key lim_log [] [ONew 0 [(1,1)] [0%nat]; OClone 0%nat] in
+  (1 < length s)%nat /\ target _ (ORemove 0%nat (1,0)) <> Some 1%nat
+  /\ nth_error (fst (step cmp_key lim_log s (ORemove 0%nat (1,0)))) 0 <> nth_error s 0.
+Proof. vm_compute. repeat split; try lia; discriminate. Qed.
+
 Example C01_new_choice_ex : s_new cmp_key [(5,1); (1,2); (5,3); (3,4)] [1; 3; 2]%nat = Some [(1,2); (3,4); (5,3)].
 Proof. vm_compute. reflexivity. Qed.
 
@@ -119,5 +147,8 @@ Example C01_remove_rebuild_count_ex :
 Proof. vm_compute. repeat split. Qed.
 
 Example C01_extract_keeps_order_ex :
-  extract [1; 2; 3; 4; 5; 6] = Ok (Node (Node Leaf 1 (Node Leaf 2 Leaf)) 3 (Node (Node Leaf 4 Leaf) 5 (Node Leaf 6 Leaf))).
-Proof. vm_compute. reflexivity. Qed.
+  match extract [1; 2; 3; 4; 5; 6] with
+  | Ok t => inorder t = [1; 2; 3; 4; 5; 6] /\ height t = 2
+  | _ => False
+  end.
+Proof. vm_compute. split; reflexivity. Qed.
